@@ -222,13 +222,25 @@ def z3_table(ctx):
     # GMT formula
     b = ctx.facts.one(r'^tools::parse_timezone$')
     ctx.fn(b)
-    target = None
-    for a, conds in alternatives(b, b.ret_expr()):
-        a = strip(a)
-        if a[0] == 'aggr' and a[1].endswith('Option::Some') and strip(a[2][0])[0] == 'aggr' and strip(a[2][0])[1] == 'tuple':
-            target = strip(a[2][0])[2][1]
-    if target is None:
-        raise AnchorLost('parse_timezone: the GMT branch result Some((name, offset)) was not found')
+    from ..evalint import feasible_values
+    ret = b.ret_expr()
+    if b.loops():
+        raise AnchorLost('parse_timezone contains a loop: its result is no longer a term')
+
+    def gmt_offset(leaf):
+        """the offset parse_timezone answers under this leaf assignment (the abbreviation group absent): the second
+        component of the one feasible Some((name, offset)); None when it is not unique / not evaluable / absent"""
+        offs = []
+        for v, a in feasible_values(b, ret, leaf):
+            a0 = strip(a)
+            if (a0[0] == 'aggr' and a0[1].endswith('Option::None')) or (a0[0] == 'call' and a0[1].endswith('::from_residual')):
+                return None                      # a feasible path answers None for a well-formed GMT zone
+            if isinstance(v, tuple) and v and v[0] == 'tuple' and len(v[1]) == 2 and isinstance(v[1][1], int):
+                if v[1][1] not in offs:
+                    offs.append(v[1][1])
+            else:
+                return None
+        return offs[0] if len(offs) == 1 else None
     bad = {}
     cells = 0
     good = 0
@@ -236,7 +248,7 @@ def z3_table(ctx):
         for (Mi, has_min) in ((0, False), (0, True), (15, True), (30, True), (45, True), (59, True)):
             for sign, has_type in ((1, False), (1, 'plus'), (-1, True)):
                 cells += 1
-                got = try_ev(b, target, _tz_leaf(H, Mi, sign, has_min, has_type))
+                got = gmt_offset(_tz_leaf(H, Mi, sign, has_min, has_type))
                 want = sign * (H * 60 + (Mi if has_min else 0))
                 if got == want:
                     good += 1
@@ -392,49 +404,87 @@ def z7_literal(ctx):
 
 
 def z8_arith(ctx):
-    """Z8 clock arithmetic table and difference"""
+    """Z8 clock arithmetic, tabulated on the result term of TimeItem::calculate: for the operator (Add / Sub) and the kind of
+    the other operand (a time, a non-negative duration, a negative duration) the new clock is self.0 + shift for Add with a
+    non-negative operand and self.0 - shift otherwise, shift = seconds(num_seconds_from_midnight(<other as a clock>)) -
+    however the cases are grouped in the source"""
+    from ..evalint import feasible_values, ev
     ctx.rule('Z8', 'TimeItem::calculate table', floor=3)
     b = ctx.facts.one(r'^<compiler::time::TimeItem as compiler::DataItem>::calculate$')
     ctx.fn(b)
+    if b.loops() or b.argc != 5:
+        raise AnchorLost('TimeItem::calculate is no longer a loop-free DataItem::calculate')
     adt = ctx.facts.adts['compiler::OperationType']
-    by = {v['discr']: v['name'] for v in adt['variants']}
-    rows = {}
-    for a, conds in alternatives(b, b.ret_expr()):
-        for x in walk(strip(a)):
-            if x[0] == 'aggr' and x[1].endswith('time::TimeItem::TimeItem'):
-                val = strip(x[2][0])
-                cs = [cond_str(d, v) for d, v in conds]
-                op = None
-                neg = None
-                for c in cs:
-                    m = re.fullmatch(r'discr\(operation_type\)=\[(\d+)\]', c)
-                    if m:
-                        op = by.get(int(m.group(1)))
-                    if 'is_negative' in c or 'phi[is_negative]' in c:
-                        neg = c.endswith('!=[0]')
-                if val[0] != 'call':
-                    continue
-                fn = val[1].rsplit('::', 1)[1]
-                l, r = render(val[2][0]), zsig(val[2][1])
-                rows[(op, neg)] = (fn, l, r, cs)
-    want = {('Add', False): 'add', ('Sub', False): 'sub'}
-    for (op, neg), fn in want.items():
-        cand = [v for (o, n), v in rows.items() if o == op]
-        if not cand:
-            ctx.finding('Z8', 'TimeItem::calculate/%s/missing' % op, 'TimeItem::calculate builds no time for %s' % op, site=b.loc)
-            continue
-        got = cand[0]
-        if got[0] != fn:
-            ctx.finding('Z8', 'TimeItem::calculate/%s/operator' % op, '%s applies `%s`' % (op, got[0]), site=b.loc)
-        elif got[1] != 'self.0' or not re.fullmatch(r'seconds\(num_seconds_from_midnight\(.*\)\)', got[2]):
-            ctx.finding('Z8', 'TimeItem::calculate/%s/operands' % op, '%s computes %s(%s, %s); expected self.0 %s seconds(num_seconds_from_midnight(right))' % (op, got[0], got[1][:40], got[2][:80], '+' if fn == 'add' else '-'), site=b.loc)
-        else:
-            ctx.ok('Z8', '%s: self.0 %s seconds(num_seconds_from_midnight(right))' % (op, '+' if fn == 'add' else '-'), 'gamma', site=b.loc)
-    negrow = [v for (o, n), v in rows.items() if o is None]
-    if negrow and negrow[0][0] == 'sub':
-        ctx.ok('Z8', 'a negative duration is subtracted', 'gamma', site=b.loc)
-    elif negrow:
-        ctx.finding('Z8', 'TimeItem::calculate/negative/operator', 'a negative duration is applied with `%s`' % negrow[0][0], site=b.loc)
+    discr = {v['name']: v['discr'] for v in adt['variants']}
+    ret = b.ret_expr()
+
+    def mk_leaf(op, kind, neg):
+        def leaf(body, e):
+            e2 = strip(e, transparent=False)
+            k = e2[0]
+            if k == 'arg' and e2[1] == 5:
+                return {'__discr__': discr[op]}
+            if k == 'arg' and e2[1] == 3:
+                return 1                                    # the receiver is the left operand
+            if k == 'aggr' and e2[1].endswith('time::TimeItem::TimeItem'):
+                return ev(body, e2[2][0], leaf)
+            if k == 'call':
+                p = e2[1]
+                if re.search(r'Rc::<.*>::new$|Rc::new$', p):
+                    return ev(body, e2[2][0], leaf)
+                if re.search(r'(PartialEq.*|impls)::(eq|ne)$', p) and 'type_name(' in render(e2):
+                    lits = [model.const_str(a) for a in e2[2]]
+                    lits = [x for x in lits if x is not None]
+                    if not lits:
+                        return None
+                    same = (lits[0] == kind)
+                    return int(same if p.endswith('::eq') else not same)
+                if p.endswith('::is_negative'):
+                    return int(neg)
+                m = re.search(r'Naive(?:Date)?Time as .*(Add|Sub)<.*(Duration|TimeDelta)>>::(add|sub)$', p)
+                if m:
+                    return {'fn': m.group(3), 'l': render(e2[2][0]), 'r': zsig(e2[2][1])}
+            return None
+        return leaf
+    cells = {('Add', 'TIME', False): 'add', ('Sub', 'TIME', False): 'sub', ('Add', 'DURATION', False): 'add', ('Sub', 'DURATION', False): 'sub',
+             ('Add', 'DURATION', True): 'sub', ('Sub', 'DURATION', True): 'sub'}
+    per_op = {}
+    for (op, kind, neg), want in sorted(cells.items()):
+        vals = feasible_values(b, ret, mk_leaf(op, kind, neg))
+        got = []
+        unknown = False
+        for v, a in vals:
+            a0 = strip(a)
+            if isinstance(v, dict) and 'fn' in v:
+                if v not in got:
+                    got.append(v)
+            elif (a0[0] == 'aggr' and a0[1].endswith('Option::None')) or (a0[0] == 'call' and a0[1].endswith('::from_residual')):
+                # the `?` on downcast_ref of the matching kind cannot fail; an explicit None for this cell is a finding
+                if a0[0] == 'aggr':
+                    got.append({'fn': None})
+            else:
+                unknown = True
+        per_op.setdefault((op, neg), []).append((kind, want, got, unknown))
+    for (op, neg), rows in sorted(per_op.items()):
+        label = op if not neg else 'negative'
+        if neg and op == 'Sub':
+            continue                                  # reported with the Add row of the negative duration
+        if neg:
+            rows = rows + per_op.get(('Sub', True), [])
+        problems = []
+        for kind, want, got, unknown in rows:
+            if unknown or len(got) != 1:
+                problems.append(('missing' if not got else 'not-extractable', '%s with a %s%s: the result term is %s' % (op, 'negative ' if neg else '', kind.lower(), 'not evaluable' if unknown or got else 'absent')))
+            elif got[0]['fn'] is None:
+                problems.append(('missing', 'TimeItem::calculate builds no time for %s with a %s' % (op, kind.lower())))
+            elif got[0]['fn'] != want:
+                problems.append(('operator', '%s%s applies `%s`' % (op, ' of a negative duration' if neg else '', got[0]['fn'])))
+            elif got[0]['l'] != 'self.0' or not re.fullmatch(r'seconds\(num_seconds_from_midnight\(.*\)\)', got[0]['r']):
+                problems.append(('operands', '%s computes %s(%s, %s); expected self.0 %s seconds(num_seconds_from_midnight(right))' % (op, got[0]['fn'], got[0]['l'][:40], got[0]['r'][:80], '+' if want == 'add' else '-')))
+        if not problems:
+            ctx.ok('Z8', '%s: self.0 %s seconds(num_seconds_from_midnight(right))' % (label, '-' if neg or op == 'Sub' else '+'), 'table', site=b.loc)
+        for cls, msg in problems[:1]:
+            ctx.finding('Z8', 'TimeItem::calculate/%s/%s' % (label, cls), msg, site=b.loc)
 
 
 def z9_difference(ctx):
